@@ -14,6 +14,14 @@ package e2e
 //	        and reverted. With plz-out DELETED before every build everything comes from the cache or is rebuilt: the
 //	        cache key of usen must change with the output of its named tool (sourceHash ranges over AllTools()).
 //
+//	link    (follow-up of the seeded change C02/r2-m1) a filegroup over a plain source file (its output is a HARD LINK to the
+//	        user's file) and consumers behind it; the file is rewritten IN PLACE (Repo.Write: os.WriteFile on the existing
+//	        file, same inode): A, B, A, B, ... with plz-out kept. A hash memoised as an xattr on the shared inode would
+//	        survive the rewrite and make the third build take B's key for A's content.
+//	od      (follow-up of the seeded change C02/r2-m2; oracle only - the cache entries of output_dirs targets are not in the
+//	        model) a genrule with output_dirs whose sources change A, B, A with plz-out kept: the metadata is stored under the
+//	        pre-build key, the artifacts under the post-build key.
+//
 // Every history is run by the real plz (EngBuild: build with the cache, clean reference build without) and replayed in
 // Model/Engine.v (cmd UseNTool = the dict-form tools).
 
@@ -25,7 +33,13 @@ import (
 	"verifharness/lib"
 )
 
-var C02ShapeKinds = []string{"multi", "ntool"}
+var C02ShapeKinds = []string{"multi", "ntool", "link", "od"}
+
+// C02ShapeModelled: is the shape inside the fragment of Model/Engine.v with the cache on?
+func C02ShapeModelled(kind string) bool { return kind != "od" }
+
+// C02ShapeKeepsPlzOut: shapes that are about plz-out being KEPT (run without the wipe-before-every-build variant)
+func C02ShapeKeepsPlzOut(kind string) bool { return kind == "link" || kind == "od" }
 
 type C02ShapeOpts struct {
 	Kind    string
@@ -94,6 +108,29 @@ func c02ShapeInit(r *lib.Rng, kind string) *shapeState {
 		if r.Chance(1, 2) {
 			add(&Target{Name: "usec", Kind: "genrule", Srcs: []string{"u.txt"}, Tools: append([]string{}, tools...), Outs: []string{"usec.out"}, Cmd: Cmd{Op: "concat"}})
 		}
+	case "link":
+		p.Files["a.txt"] = shapeContent(r, 400)
+		p.Files["t.txt"] = shapeContent(r, 401)
+		add(&Target{Name: "fg", Kind: "filegroup", Srcs: []string{"a.txt"}})
+		usrcs := []string{"//p:fg"}
+		if r.Chance(1, 2) {
+			usrcs = append(usrcs, "t.txt")
+		}
+		add(&Target{Name: "use", Kind: "genrule", Srcs: usrcs, Outs: []string{"use.out"}, Cmd: Cmd{Op: "concat"}})
+		if r.Chance(1, 2) {
+			add(&Target{Name: "top", Kind: "genrule", Srcs: []string{"//p:use"}, Outs: []string{"top.out"}, Cmd: Cmd{Op: "concat"}})
+		}
+		if r.Chance(1, 2) { // a control reading the file directly
+			add(&Target{Name: "ctl", Kind: "genrule", Srcs: []string{"a.txt"}, Outs: []string{"ctl.out"}, Cmd: Cmd{Op: "concat"}})
+		}
+	case "od":
+		p.Files["a.txt"] = shapeContent(r, 500)
+		p.Files["t.txt"] = shapeContent(r, 501)
+		srcs := []string{"a.txt"}
+		if r.Chance(1, 2) {
+			srcs = append(srcs, "t.txt")
+		}
+		add(&Target{Name: "t", Kind: "genrule", Srcs: srcs, Outs: []string{"m1"}, OutDirs: []string{"_o"}, Cmd: Cmd{Op: "outdir"}})
 	default:
 		panic("unknown C02 shape " + kind)
 	}
@@ -120,7 +157,8 @@ func c02ShapeEdit(r *lib.Rng, st *shapeState, o C02ShapeOpts, step int, past []*
 		st.spec = past[k].Clone()
 		return Edit{pre + "revert", fmt.Sprintf("to state %d", k)}
 	}
-	what := map[string]string{"multi": "dep-src-content", "ntool": "tool-src-content-output-changes"}[o.Kind]
+	what := map[string]string{"multi": "dep-src-content", "ntool": "tool-src-content-output-changes",
+		"link": "hard-linked-src-rewritten-in-place", "od": "output-dirs-src-content"}[o.Kind]
 	switch step {
 	case 1:
 		p.Files[key] = shapeContent(r, 1000+n)
